@@ -29,6 +29,7 @@ import (
 	"errors"
 	"fmt"
 	"os"
+	"runtime"
 	"strings"
 	"testing"
 	"time"
@@ -283,6 +284,13 @@ func TestVerif_C16_Live(t *testing.T) {
 			rt.Skip("tempdir")
 		}
 		defer os.RemoveAll(dir)
+		// diagnostics only: if a case is stuck for 150 s, leave the goroutine stacks behind
+		wd := time.AfterFunc(150*time.Second, func() {
+			buf := make([]byte, 8<<20)
+			buf = buf[:runtime.Stack(buf, true)]
+			os.WriteFile(fmt.Sprintf("/dev/shm/g9-c16-stuck-%d.txt", os.Getpid()), buf, 0o644)
+		})
+		defer wd.Stop()
 		e := &liveEnv{rec: rec, c: vnode.NewCluster(dir, vnode.Fast()), cutAt: map[int]time.Time{}}
 		defer e.c.Close()
 		if err := e.c.Form(3, 1); err != nil {
